@@ -53,7 +53,9 @@ def feed(h, maxsz, data, chooser):
         rd = [int(e.split()[1]) for e in evs if e.startswith("rd ")]
         if not rd: break                    # the loop ended with an error: nothing is read any more
         n = max(1, min(chooser(len(data) - pos), rd[-1], len(data) - pos))
-        if rd[-1] == 0: break
+        if rd[-1] == 0:
+            flat.append("<zero-length read>")      # the buffer is full and the packet is not complete: the loop can never make progress again
+            break
         ln = "frm rx " + data[pos:pos + n].hex(); pos += n
         lines.append(ln); outs.append(h.send(ln))
         if outs[-1] is None: break
@@ -74,6 +76,7 @@ def run(ctx, n, seed):
     for k in range(n):
         maxsz = rng.choice([None, None, 20, 64, 200])
         data, kinds = gen_stream(rng, maxsz or 65536)
+        if maxsz and rng.random() < 0.5: data += bytes(rng.randrange(256) for _ in range(maxsz + 8))     # enough bytes to fill the receive buffer if a too large packet is let in
         for kk in kinds: kinds_stat[kk] = kinds_stat.get(kk, 0) + 1
         runs = []
         for name, chooser in (("whole", lambda left: left), ("bytewise", lambda left: 1), ("random", lambda left: rng.choice([1, 2, 3, 5, 8, 13, 64]))):
@@ -83,6 +86,10 @@ def run(ctx, n, seed):
                 ctx.violation("frame-crash", {"what": "assemble_op crashed / sanitizer fault on broker bytes", "stream": data.hex(), "chunking": name, "script": lines,
                                               "stderr": h.dead[1][-1500:] if h.dead else ""})
                 found = True; h = Harness(hb); continue
+            if "<zero-length read>" in flat and not found:
+                ctx.violation("frame-hang", {"what": "C19: assemble_op let in a packet that does not fit its receive buffer: the buffer is full, the next read has length 0 and completes at once with 0 bytes, for ever (the client spins: no DISCONNECT, no reconnect)",
+                                             "stream": data.hex(), "max_packet_size": maxsz, "chunking": name, "script": lines, "outputs": outs[-3:]})
+                found = True
             runs.append((name, lines, outs, flat))
             all_lines += lines; all_outs += outs
         # the property on the implementation: same packets whatever the chunking
